@@ -100,3 +100,139 @@ Section Birthday.
     pose proof (Hmono j h ltac:(lia) ltac:(lia) ltac:(lia)). lia.
   Qed.
 End Birthday.
+
+(** * Part 2: small facts about the list-backed sets *)
+
+Lemma bkey_eqb_eq a b : bkey_eqb a b = true <-> a = b.
+Proof.
+  destruct a as [s1 b1], b as [s2 b2]. unfold bkey_eqb. simpl.
+  rewrite andb_true_iff, N.eqb_eq, Bool.eqb_true_iff. split.
+  - intros [-> ->]. reflexivity.
+  - intros H. inversion H. auto.
+Qed.
+
+Lemma bkey_eqb_refl a : bkey_eqb a a = true.
+Proof. apply bkey_eqb_eq. reflexivity. Qed.
+
+Lemma bkey_eqb_neq a b : bkey_eqb a b = false <-> a <> b.
+Proof.
+  split.
+  - intros H E. apply bkey_eqb_eq in E. congruence.
+  - intros H. destruct (bkey_eqb a b) eqn:E; [apply bkey_eqb_eq in E; congruence|reflexivity].
+Qed.
+
+Lemma key_eqb_eq a b : key_eqb a b = true <-> a = b.
+Proof.
+  destruct a as [k1 i1], b as [k2 i2]. unfold key_eqb. simpl.
+  rewrite andb_true_iff, bkey_eqb_eq, N.eqb_eq. split.
+  - intros [-> ->]. reflexivity.
+  - intros H. inversion H. auto.
+Qed.
+
+Lemma op_eqb_eq a b : op_eqb a b = true <-> a = b.
+Proof.
+  destruct a as [a1 a2], b as [b1 b2]. unfold op_eqb. simpl.
+  rewrite andb_true_iff, !N.eqb_eq. split.
+  - intros [-> ->]. reflexivity.
+  - intros H. inversion H. auto.
+Qed.
+
+Lemma memN_In i l : memN i l = true <-> In i l.
+Proof.
+  unfold memN. rewrite existsb_exists. split.
+  - intros (x & Hx & E). apply N.eqb_eq in E. subst. exact Hx.
+  - intros H. exists i. split; [exact H|apply N.eqb_refl].
+Qed.
+
+Lemma memN_false i l : memN i l = false <-> ~ In i l.
+Proof.
+  rewrite <- memN_In. destruct (memN i l); split; intros; congruence.
+Qed.
+
+Lemma mem_op_In o l : mem_op o l = true <-> In o l.
+Proof.
+  unfold mem_op. rewrite existsb_exists. split.
+  - intros (x & Hx & E). apply op_eqb_eq in E. subst. exact Hx.
+  - intros H. exists o. split; [exact H|apply op_eqb_eq; reflexivity].
+Qed.
+
+Lemma mem_op_false o l : mem_op o l = false <-> ~ In o l.
+Proof.
+  rewrite <- mem_op_In. destruct (mem_op o l); split; intros; congruence.
+Qed.
+
+Lemma mem_key_In k l : mem_key k l = true <-> In k l.
+Proof.
+  unfold mem_key. rewrite existsb_exists. split.
+  - intros (x & Hx & E). apply key_eqb_eq in E. subst. exact Hx.
+  - intros H. exists k. split; [exact H|apply key_eqb_eq; reflexivity].
+Qed.
+
+Lemma insN_In i j l : In j (insN i l) <-> j = i \/ In j l.
+Proof.
+  unfold insN. destruct (memN i l) eqn:E.
+  - apply memN_In in E. split; [auto|]. intros [->|H]; assumption.
+  - simpl. split; intros [H|H]; auto.
+Qed.
+
+Lemma insN_NoDup i l : NoDup l -> NoDup (insN i l).
+Proof.
+  intros H. unfold insN. destruct (memN i l) eqn:E; [exact H|].
+  constructor; [apply memN_false; exact E|exact H].
+Qed.
+
+Lemma ins_op_In o x l : In x (ins_op o l) <-> x = o \/ In x l.
+Proof.
+  unfold ins_op. destruct (mem_op o l) eqn:E.
+  - apply mem_op_In in E. split; [auto|]. intros [->|H]; assumption.
+  - simpl. split; intros [H|H]; auto.
+Qed.
+
+Lemma ins_key_In k x l : In x (ins_key k l) <-> x = k \/ In x l.
+Proof.
+  unfold ins_key. destruct (mem_key k l) eqn:E.
+  - apply mem_key_In in E. split; [auto|]. intros [->|H]; assumption.
+  - simpl. split; intros [H|H]; auto.
+Qed.
+
+Lemma filter_all_true {A} (f : A -> bool) l :
+  (forall x, In x l -> f x = true) -> filter f l = l.
+Proof.
+  induction l as [|x l IH]; simpl; intros H; [reflexivity|].
+  rewrite (H x (or_introl eq_refl)). f_equal. apply IH. intros y Hy. apply H. right. exact Hy.
+Qed.
+
+Lemma NoDup_app_disjoint {A} (l1 l2 : list A) x :
+  NoDup (l1 ++ l2) -> In x l1 -> In x l2 -> False.
+Proof.
+  induction l1 as [|a l1 IH]; simpl; intros Hnd H1 H2; [contradiction|].
+  inversion Hnd; subst. destruct H1 as [->|H1].
+  - apply H3. apply in_or_app. right. exact H2.
+  - apply IH; assumption.
+Qed.
+
+Lemma NoDup_app_l {A} (l1 l2 : list A) : NoDup (l1 ++ l2) -> NoDup l1.
+Proof.
+  induction l1 as [|a l1 IH]; simpl; intros H; [constructor|].
+  inversion H; subst. constructor.
+  - intros Hin. apply H2. apply in_or_app. left. exact Hin.
+  - apply IH. exact H3.
+Qed.
+
+(** Invariant-style reasoning for left folds. *)
+Lemma fold_left_inv {A B} (f : A -> B -> A) (P : list B -> A -> Prop) l a0 :
+  P [] a0 ->
+  (forall done x rest a, l = done ++ x :: rest -> P done a -> P (done ++ [x]) (f a x)) ->
+  P l (fold_left f l a0).
+Proof.
+  intros H0 Hstep.
+  assert (G : forall todo done a, l = done ++ todo -> P done a ->
+                                  P (done ++ todo) (fold_left f todo a)).
+  { induction todo as [|x todo IH]; intros done a El Hp; simpl.
+    - rewrite app_nil_r. exact Hp.
+    - replace (done ++ x :: todo) with ((done ++ [x]) ++ todo) by (rewrite <- app_assoc; reflexivity).
+      apply IH.
+      + rewrite <- app_assoc. exact El.
+      + eapply Hstep; eauto. }
+  apply (G l [] a0); [reflexivity|exact H0].
+Qed.
